@@ -1,14 +1,17 @@
 (* C07: the case type of the harness-written case files (model vs. implementation on the same histories).
    Definitions only. *)
 From ZV.Common Require Import Base Run.
-From ZV.C07 Require Import Model ModelFive.
+From ZV.C07 Require Import Model ModelFive ModelTL.
 Open Scope N_scope.
 
 Inductive xcase :=
 | XOld (c : Model.case_t)
 (* five-level family: configuration, whether the constructor accepted it, whether remaining_capacity() is observed,
    the history, and per operation: result, used_memory, fragment_size[, remaining_capacity] *)
-| X5 (c : fcfg) (impl_new rem : bool) (ops : list op5) (expect : list (option Z)).
+| X5 (c : fcfg) (impl_new rem : bool) (ops : list op5) (expect : list (option Z))
+(* ThreadLocalMemoryPool: TLS_SIZE_CLASSES as read from the source, configuration, history, and per allocation the
+   arena index (in order of first appearance) and the offset inside the arena *)
+| XTl (impl_classes : list N) (c : tlcfg) (ops : list tlop) (expect : list (option Z)).
 
 Definition xok (x : xcase) : bool :=
   match x with
@@ -17,4 +20,5 @@ Definition xok (x : xcase) : bool :=
       if new_ok5 Fixed c
       then (if impl_new then eqb_loz (observe5 Fixed c rem ops) e else 1073741824 <? f_cap c)   (* a huge arena may fail to allocate *)
       else negb impl_new
+  | XTl ic c ops e => eqb_ln' ic TLS_SIZE_CLASSES && eqb_loz (tl_observe c ops) e
   end.
